@@ -202,7 +202,8 @@ def run(ctx):
                    "Poll::Pending is returned although the inner poll was Ready: no waker is registered, the task sleeps until something unrelated wakes it (stall after an incomplete frame)")
 
     # ---------------- R4d ----------------------------------------------------------------------
-    streams = [b for b in prog.methods_of_trait_impls("Stream", "poll_next") if any(c.name == "Decoder::decode" for (_, c, _) in b.calls())]
+    streams = [prog.flat(b.defp) for b in prog.methods_of_trait_impls("Stream", "poll_next")]
+    streams = [b for b in streams if any(c.name == "Decoder::decode" for (_, c, _) in b.calls())]
     ctx.floor("R4d", "Streams that own a Decoder", 1, len(streams))
     for b in streams:
         decs_ = [(blk, c, t) for (blk, c, t) in b.calls() if c.name == "Decoder::decode"]
